@@ -184,16 +184,19 @@ class Monitor:
                 q = c.dst
                 if q == s:
                     continue
-                Tq = reftime.apply(c.adapt, L)
+                # The statement speaks of *times*: "does not begin a step at time t while any simulator it feeds
+                # still has a step earlier than t outstanding".  Sub-steps of the same time are not "earlier": a
+                # consumer's sub-step (t, 0) may only be able to run after the producer's same-time loop at t has
+                # ended (F04), so a sub-step reading would be unsatisfiable in accepted scenarios (DESIGN 10.4/12).
                 fl = self.inflight[q]
-                if fl is not None and fl < Tq:
-                    self.v("C10.run_ahead", f"{s} began {L} while its consumer {q} is still in step {fl} (< {Tq})",
-                           kind=c.kind)
+                if fl is not None and fl[0] < L[0]:
+                    self.v("C10.run_ahead", f"{s} began {L} while its consumer {q} is still in step {fl} (time {fl[0]} "
+                                            f"< {L[0]})", kind=c.kind)
                 for D in self.pending[q]:
-                    if D < Tq:
+                    if D[0] < L[0]:
                         self.v("C10.run_ahead",
-                               f"{s} began {L} while its consumer {q} has an outstanding demanded step {D} (< {Tq})",
-                               kind=c.kind)
+                               f"{s} began {L} while its consumer {q} has an outstanding demanded step {D} "
+                               f"(time {D[0]} < {L[0]})", kind=c.kind)
                         break
 
         # ---- C07 max_advance
